@@ -770,7 +770,7 @@ func genC09(g *G) {
 		g.Emit("rerun", "esigning", "5")
 	}
 	// random sequences of sessions over two ids in any order, retried sessions mixed in
-	for i := 0; i < g.Count(40, 700); i++ {
+	for i := 0; i < g.Count(30, 700); i++ {
 		n := 2 + g.Intn(5)
 		xs := []string{}
 		for j := 0; j < n; j++ {
